@@ -410,6 +410,9 @@ def run(ctx):
     # a value remembered for later calls is keyed by every argument it depends on (nqsa/memo.py)
     from .. import memo
     memo.check(ctx, "C09.K", ['netqasm.sdk.qubit', 'netqasm.sdk.memmgr', 'netqasm.backend.executor'])
+    # no type test that an earlier type test has already decided (a subclass tested after its base class: nqsa/shadow.py)
+    from .. import shadow
+    shadow.check(ctx, "C09.H", ['netqasm.sdk.qubit', 'netqasm.sdk.memmgr', 'netqasm.backend.executor'])
 
 
 QB = "netqasm/sdk/qubit.py"
